@@ -71,6 +71,7 @@ def report_cases(draw):
         # simplified form, which these networks are not
         "simplify": True,
         "minimize": draw(st.sampled_from(["flops", "size", "write", "combo"])),
+        "slicing": draw(st.booleans()),
     }
 
 
@@ -284,9 +285,17 @@ def run_report(spec):
                 )
     else:
         def go():
+            kw = {}
+            # slice only where every label takes part in a pairwise contraction
+            if (
+                spec.get("slicing") and sizes
+                and all(sum(ix in t for t in inputs) >= 2 for ix in sizes)
+                and all(d >= 2 for d in sizes.values())  # so that 2 slices are reachable
+            ):
+                kw["slicing_opts"] = {"target_slices": 2, "max_repeats": 2}
             opt = ctg.ReusableHyperOptimizer(
                 methods=["greedy"], optlib="random", max_repeats=spec["max_repeats"],
-                minimize=spec["minimize"], parallel=False, seed=spec["seed"],
+                minimize=spec["minimize"], parallel=False, seed=spec["seed"], **kw,
             )
             t1 = opt.search(inputs, output, sizes)
             (con,) = opt._cache._mem_cache.values()
@@ -303,6 +312,17 @@ def run_report(spec):
                 viol.append(f"stored score {con['score']} != score {s2} of the tree rebuilt from the stored path")
             if t2.get_path() != tuple(con["path"]) and list(map(tuple, t2.get_path())) != list(map(tuple, con["path"])):
                 viol.append("rebuilt tree has a different path than stored")
+            if tuple(t2.sliced_inds) != tuple(con["sliced_inds"]) or tuple(t1.sliced_inds) != tuple(con["sliced_inds"]):
+                viol.append(
+                    f"sliced labels stored {tuple(con['sliced_inds'])}, searched tree has {tuple(t1.sliced_inds)}, rebuilt tree has {tuple(t2.sliced_inds)}"
+                )
+            # the figures of the rebuilt tree against the independent model
+            removed = [(ix, None) for ix in t2.sliced_inds]
+            cr2 = ref.CostRef(inputs, output, sizes, removed)
+            st2 = cr2.stats([(p, l, r) for p, l, r in t2.traverse()])
+            got = t2.contract_stats()
+            if (got["flops"], got["write"], got["size"]) != (st2["flops"], st2["write"], st2["size"]):
+                viol.append(f"rebuilt tree reports {got}, definition {st2['flops']}/{st2['write']}/{st2['size']}")
     cls = ["kind=report", f"which={which}"]
     if "Z" in sizes:
         cls.append("label_on_all_tensors")
